@@ -64,6 +64,16 @@ def extract():
     for n in names:
         codes.append(arith(one(enum, rf"\b{n} = (0x[0-9a-fA-F]+|\d+),", f"MessageType::{n}")))
     c["msgTypeCodes"] = codes
+    # `MessageType::from_u8`: a match whose arms are exactly `<code> => Ok(Self::<Variant>)` plus one `_ => Err(..)`
+    fu = one(pr, r"pub fn from_u8\(value: u8\) -> Result<Self> \{\s*match value \{(.*?)\n        \}\n    \}", "MessageType::from_u8 (match value { … })")
+    arms = re.findall(r"(0x[0-9a-fA-F]+|\d+)\s*=>\s*Ok\(Self::(\w+)\)\s*,", fu)
+    n_arrows = len(re.findall(r"=>", fu))
+    if n_arrows != len(arms) + 1 or not re.search(r"_\s*=>\s*Err\(", fu):
+        raise ExtractError("MessageType::from_u8 is not `code => Ok(Self::V)` arms plus one `_ => Err(..)` arm")
+    byname = dict((v, arith(k)) for k, v in arms)
+    if sorted(byname) != sorted(names):
+        raise ExtractError(f"from_u8 accepts variants {sorted(byname)} but the enum has {sorted(names)}")
+    c["fromU8Arms"] = [byname[n] for n in names]
     wi = read("src/bin/copia/wire.rs")
     c["wireMagic"] = one(wi, r'pub const MAGIC: &\[u8; 6\] = b"([^"]*)";', "wire MAGIC")
     c["wireVersion"] = arith(one(wi, r"pub const VERSION: u32 = ([^;]+);", "wire VERSION"))
@@ -124,6 +134,7 @@ def render(c):
     L.append(f"def protocolMagic : List Nat := {list(c['protocolMagic'].encode())}")
     L.append(f"def wireMagic : List Nat := {list(c['wireMagic'].encode())}")
     L.append(f"def msgTypeCodes : List Nat := {c['msgTypeCodes']}")
+    L.append(f"def fromU8Arms : List Nat := {c['fromU8Arms']}")
     L.append(f"def findPrintf : List Nat := {c['findPrintf']}")
     L.append("def escapePairs : List (Nat × List Nat) := [" + ", ".join(f"({a}, {b})" for a, b in c["escapePairs"]) + "]")
     L.append(f"def stagingSuffix : String := {lean_str(c['stagingSuffix'])}")
